@@ -1,0 +1,59 @@
+//go:build verif
+
+package seencheck
+
+// Contracts for govc (see /verif/DESIGN.md §8 C08). Comment-only file: it adds no code.
+//
+// The seen-store (LevelDB through gokv) is abstracted by the ghost map `store`:
+// key -> "asset" | "seed", absent = never recorded. isSeen / seen are the two one-line
+// wrappers around Store.Get / Store.Set; their contracts ARE the assumed LevelDB get/set
+// contract (the out-parameter of Get and the value of Set travel inside `interface{}` values,
+// which the contract language cannot open, so the assumption is stated one level up).
+// seen ignores the error returned by Set: the contract assumes the write succeeds.
+//@ ghost var store map[string]string
+
+//@ func isSeen
+//@   opaque
+//@   modifies nothing
+//@   ensures found == has(store, hash) && (found ==> value == store[hash])
+
+//@ func seen
+//@   opaque
+//@   modifies mapof(store), atomic(*)
+//@   ensures has(store, hash) && store[hash] == value
+//@   ensures forall(k, string, k != hash ==> has(store, k) == old(has(store, k)) && store[k] == old(store[k]))
+
+// SeencheckItem (local store). `hash` is the key computed for the node of the current
+// iteration from its canonical text (FNV-64a of URL.String(), not modelled: the engine has no
+// link from []byte(s) back to s, so the key is an arbitrary value per iteration here).
+// Ghost record of the current iteration, taken right after the lookup (isSeen changes
+// nothing, so this is the store before the iteration's write): the node, its key and type,
+// whether the store had the key and with which type. The invariant [step] is the
+// per-node postcondition of the iteration that has just finished (index rangeindex).
+//@ ghost var gNode *models.Item
+//@ ghost var gKey string
+//@ ghost var gType string
+//@ ghost var gHad bool
+//@ ghost var gOld string
+//@ pred promotion(had bool, old string, typ string) = had && old == "asset" && typ == "seed"
+//@ func SeencheckItem
+//@   property C08
+//@   attr assert-all SetStatus
+//@   requires [non-nil] item != nil
+//@   modifies models.Item::status, mapof(store), atomic(*), gNode, gKey, gType, gHad, gOld
+//@   after isSeen(hash)#1: gNode = items[i]; gKey = hash; gType = URLType; gHad = has(store, hash); gOld = store[hash]
+//@   loop range modifies gNode, gKey, gType, gHad, gOld
+//@   loop range let cur0 = items[rangeindex+1].status
+//@   loop range invariant [level] -1 <= rangeindex && freshslice(items) && forall(j, 0, len(items), items[j] != nil)
+//@   loop range invariant [only-seen] forall(n, *models.Item, n.status == old(n.status) || n.status == models.ItemSeen)
+//@   loop range invariant [monotone] forall(k, string, old(has(store, k)) ==> has(store, k))
+//@   loop range invariant [no-demotion] forall(k, string, old(has(store, k)) && old(store[k]) == "seed" ==> store[k] == "seed")
+//@   loop range invariant [step-node] rangeindex >= 0 ==> gNode == items[rangeindex]
+//@   loop range invariant [step-new] rangeindex >= 0 && !gHad ==> has(store, gKey) && store[gKey] == gType && gNode.status == cur0 // C08: recorded as seen in the job (first time: recorded, not skipped)
+//@   loop range invariant [step-promotion] rangeindex >= 0 && promotion(gHad, gOld, gType) ==> has(store, gKey) && store[gKey] == "seed" && gNode.status == cur0 // C08: except a seed or redirect target whose URL had only been seen as an asset
+//@   loop range invariant [step-skip] rangeindex >= 0 && gHad && !promotion(gHad, gOld, gType) ==> gNode.status == models.ItemSeen && has(store, gKey) && store[gKey] == gOld // C08: any item checked afterwards with the same canonical URL is skipped rather than fetched again
+//@   assert isSeen(hash)#1: [type] URLType == ite(items[i].parent != nil && items[i].parent.status == models.ItemGotChildren, "asset", "seed") // C08: a seed or redirect target is looked up and recorded as "seed", an asset as "asset"
+//@   assert SetStatus(?)#1: [sound] found && gHad && has(store, hash) && foundType == store[hash] && !promotion(found, foundType, URLType) // C08: an item is skipped as already seen only if the seen-store really reported it as seen
+//@   ensures [only-seen] forall(n, *models.Item, n.status == old(n.status) || n.status == models.ItemSeen)
+//@   ensures [monotone] forall(k, string, old(has(store, k)) ==> has(store, k)) // C08: once a URL has been recorded as seen in a job
+//@   ensures [no-demotion] forall(k, string, old(has(store, k)) && old(store[k]) == "seed" ==> store[k] == "seed")
